@@ -266,6 +266,15 @@ class ModelLoader(object):
             if not isinstance(stmt, CreateAssociationStmt):
                 continue
             
+            for kind, keys in ((stmt.source_kind, stmt.source_keys),
+                               (stmt.target_kind, stmt.target_keys)):
+                metaclass = metamodel.find_metaclass(kind)
+                for key in keys:
+                    if metaclass.attribute_type(key) is None:
+                        raise ParsingException("%s:%d:%s.%s is not defined" % (stmt.filename,
+                                                                               stmt.lineno,
+                                                                               kind, key))
+            
             ass = metamodel.define_association(stmt.rel_id,
                                          stmt.source_kind,
                                          stmt.source_keys,
